@@ -1,1 +1,177 @@
-import Depccg.Tree
+/-
+  C15  XML formats round-trip and give ccg2lambda a complete derivation.
+
+  Seven statements (Props/C15Defs.lean); six are proved as stated.  `JiggWellFormedStatement` is
+  FALSE as written: the Jigg encoder copies every entry of a token into the `<token>` element
+  after its own `start`, `cat`, `id`, so a token carrying an `id` entry replaces the encoder's id
+  (two such tokens give duplicate token ids, and the spans' `terminal` references dangle).  The
+  counterexample is machine-checked below (`jigg_wellformed_original_false`); the corrected
+  statement `JiggWellFormedStatement'` (extra hypothesis: the tokens of the first tree of every
+  sentence have no `id` entry; conclusion unchanged) is proved as `jigg_wellformed_partial`.
+-/
+import Depccg.Props.C15Defs
+import Depccg.Proofs.C15Lemmas
+
+namespace Depccg.C15
+open Depccg Str Xml TextProps
+
+/-- reading back C&C XML that depccg wrote -/
+theorem xml_roundtrip : XmlRoundtripStatement := xml_roundtrip_thm
+
+/-- sentences and trees are numbered from 1 -/
+theorem xml_numbering : XmlNumberingStatement := xml_numbering_thm
+
+/-- Jigg XML written by depccg is self-contained (corrected statement, see the header) -/
+theorem jigg_wellformed_partial : JiggWellFormedStatement' := jigg_wellformed_partial_thm
+
+/-- reading Japanese Jigg XML back gives the categories, the shape and the words -/
+theorem jigg_roundtrip_ja : JiggRoundtripJaStatement := jigg_roundtrip_ja_thm
+
+/-- ccg2lambda's re-nesting of the flat spans is isomorphic to the derivation -/
+theorem build_tree_iso : BuildTreeIsoStatement := build_tree_iso_thm
+
+/-- normalised token names start with `_` and contain no logic punctuation -/
+theorem normalize_clean : NormalizeCleanStatement := normalize_clean_thm
+
+/-- `normalize_token` is idempotent -/
+theorem normalize_idem : NormalizeIdemStatement := normalize_idem_thm
+
+/-! ### the original Jigg statement is false -/
+
+def cexN : Cat := .atom (lit "N") (.un none)
+/-- a token that brings its own `id` -/
+def cexTok : Token := [(lit "word", lit "a"), (lit "id", lit "x")]
+def cexTree : Tree :=
+  .bin cexN (lit "fa") (lit ">") true (.leaf cexN cexTok (lit "lex") (lit "<lex>"))
+    (.leaf cexN cexTok (lit "lex") (lit "<lex>"))
+
+/-- the two `<token>` elements both get `id="x"` -/
+example : (jiggOf false [[cexTree]]).map (fun ss => ss.map tokenIds) = .ok [[lit "x", lit "x"]] := by decide
+
+theorem jigg_wellformed_original_false : ¬ JiggWellFormedStatement := by
+  intro h
+  obtain ⟨ss, hss⟩ : ∃ ss, jiggOf false [[cexTree]] = .ok ss := ⟨_, rfl⟩
+  have h1 := h false [[cexTree]] ss (by decide) hss
+  have hids : ss.map tokenIds = [[lit "x", lit "x"]] := by
+    have : (jiggOf false [[cexTree]]).map (fun ss => ss.map tokenIds) = .ok [[lit "x", lit "x"]] := by decide
+    rw [hss] at this
+    exact Except.ok.inj this
+  match ss, h1, hids with
+  | [s], h1, hids =>
+    have hn := (h1.2.1 (s, [cexTree]) (by simp)).2.1
+    simp only [List.map_cons, List.map_nil, List.cons.injEq, and_true] at hids
+    simp only [hids] at hn
+    revert hn
+    decide
+
+/-! ### non-vacuity: C&C XML -/
+
+def exN : Cat := .atom (lit "N") (.un none)
+def exNN : Cat := .fn exN cSlash exN
+def exTokA : Token :=
+  [(lit "word", lit "old"), (lit "pos", lit "JJ"), (lit "entity", lit "O"), (lit "lemma", lit "old"), (lit "chunk", lit "I-NP")]
+def exTokB : Token :=
+  [(lit "word", lit "dogs"), (lit "pos", lit "NNS"), (lit "entity", lit "O"), (lit "lemma", lit "dog"), (lit "chunk", lit "I-NP")]
+/-- `old dogs`, with labels the reader will not see again on the binary node -/
+def exTree : Tree :=
+  .bin exN (lit "xx") (lit "?") false (.leaf exNN exTokA (lit "lex") (lit "<lex>")) (.leaf exN exTokB (lit "lex") (lit "<lex>"))
+/-- what the reader makes of it: the grammar's label and head direction -/
+def exImage : Tree :=
+  .bin exN (lit "fa") (lit ">") true (.leaf exNN exTokA (lit "lex") (lit "<lex>")) (.leaf exN exTokB (lit "lex") (lit "<lex>"))
+def exX : XTree := .rule2 [(lit "type", lit "xx"), (lit "cat", lit "N")]
+  (.lf [(lit "start", lit "0"), (lit "span", lit "1"), (lit "cat", lit "N/N"), (lit "word", lit "old"), (lit "pos", lit "JJ"),
+        (lit "entity", lit "O"), (lit "lemma", lit "old"), (lit "chunk", lit "I-NP")])
+  (.lf [(lit "start", lit "1"), (lit "span", lit "1"), (lit "cat", lit "N"), (lit "word", lit "dogs"), (lit "pos", lit "NNS"),
+        (lit "entity", lit "O"), (lit "lemma", lit "dog"), (lit "chunk", lit "I-NP")])
+
+/-- `xml_of` evaluated on a sentence with two (equal) trees -/
+example : (xmlOf [[exTree, exTree]]).map (fun c => (c.sentence, c.id, c.tree)) = [(1, 1, exX), (1, 2, exX)] := by
+  decide
+
+/-- and read back -/
+example : xmlImage .en exTree = .ok exImage ∧ readXTree .en exX = .ok (exImage, exImage.tokens) := by decide
+
+theorem xmlTokOK_of_dec (t : Token) (h1 : ∀ k ∈ fiveKeys, (Token.get? t k).isSome = true)
+    (h2 : ∀ kv ∈ t, kv.1 ∉ reservedXml) (h3 : (t.map (·.1)).Nodup) : XmlTokOK t :=
+  ⟨fun k hk => Option.isSome_iff_exists.1 (h1 k hk), h2, h3⟩
+
+/-- the hypotheses of `xml_roundtrip` hold for the example, and the theorem gives the same answer -/
+example : ∃ t', xmlImage .en exTree = .ok t' ∧ readXTree .en (xmlTree exTree 0).1 = .ok (t', t'.tokens) := by
+  apply xml_roundtrip .en exTree 0
+  · simp only [exTree, AllCats, exN, exNN, C05.WF, C05.WFFeat, C05.PlainTok]
+    decide
+  · simp [exTree, AllCats, exN, exNN, OneSystem, C14.AllUnary]
+  · exact ⟨xmlTokOK_of_dec exTokA (by decide) (by decide) (by decide),
+      xmlTokOK_of_dec exTokB (by decide) (by decide) (by decide)⟩
+
+/-! ### non-vacuity: Jigg XML -/
+
+/-- a second analysis of the same words, with a unary node -/
+def exTree2 : Tree :=
+  .bin exN (lit "fa") (lit ">") false (.leaf exNN exTokA (lit "lex") (lit "<lex>"))
+    (.un exN (lit "lex") (lit "<un>") (.leaf exN exTokB (lit "lex") (lit "<lex>")))
+
+/-- `to_jigg_xml` evaluated on one sentence with two trees: the `<token>` elements ... -/
+example : (jiggOf false [[exTree2, exTree]]).map (fun ss => ss.map fun s => s.tokens) =
+    .ok [[[(lit "start", lit "0"), (lit "cat", lit "N/N"), (lit "id", lit "s0_0"), (lit "pos", lit "JJ"), (lit "entity", lit "O"),
+           (lit "chunk", lit "I-NP"), (lit "surf", lit "old"), (lit "base", lit "old")],
+          [(lit "start", lit "1"), (lit "cat", lit "N"), (lit "id", lit "s0_1"), (lit "pos", lit "NNS"), (lit "entity", lit "O"),
+           (lit "chunk", lit "I-NP"), (lit "surf", lit "dogs"), (lit "base", lit "dog")]]] := by
+  decide
+
+/-- ... the attributes of the two `<ccg>` elements ... -/
+example : (jiggOf false [[exTree2, exTree]]).map (fun ss => ss.map fun s => s.ccgs.map (·.attrs)) =
+    .ok [[[(lit "id", lit "s0_ccg0"), (lit "root", lit "s0_sp0")], [(lit "id", lit "s0_ccg1"), (lit "root", lit "s0_sp4")]]] := by
+  decide
+
+/-- ... and their spans: flat, in pre-order, the span ids running on across the trees -/
+example : (jiggOf false [[exTree2, exTree]]).map (fun ss => ss.flatMap fun s => s.ccgs.map (·.spans)) =
+    .ok [[[(lit "category", lit "N"), (lit "id", lit "s0_sp0"), (lit "child", lit "s0_sp1 s0_sp2"), (lit "rule", lit "fa"),
+            (lit "begin", lit "0"), (lit "end", lit "2"), (lit "root", lit "true")],
+           [(lit "category", lit "N/N"), (lit "id", lit "s0_sp1"), (lit "terminal", lit "s0_0"), (lit "begin", lit "0"), (lit "end", lit "1")],
+           [(lit "category", lit "N"), (lit "id", lit "s0_sp2"), (lit "child", lit "s0_sp3"), (lit "rule", lit "lex"),
+            (lit "begin", lit "1"), (lit "end", lit "2")],
+           [(lit "category", lit "N"), (lit "id", lit "s0_sp3"), (lit "terminal", lit "s0_1"), (lit "begin", lit "1"), (lit "end", lit "2")]],
+          [[(lit "category", lit "N"), (lit "id", lit "s0_sp4"), (lit "child", lit "s0_sp5 s0_sp6"), (lit "rule", lit "xx"),
+            (lit "begin", lit "0"), (lit "end", lit "2"), (lit "root", lit "true")],
+           [(lit "category", lit "N/N"), (lit "id", lit "s0_sp5"), (lit "terminal", lit "s0_0"), (lit "begin", lit "0"), (lit "end", lit "1")],
+           [(lit "category", lit "N"), (lit "id", lit "s0_sp6"), (lit "terminal", lit "s0_1"), (lit "begin", lit "1"), (lit "end", lit "2")]]] := by
+  decide
+
+/-- the theorem applies to that batch: every `<ccg>` of its output is well-formed -/
+example : ∃ ss, jiggOf false [[exTree2, exTree]] = .ok ss ∧ ss.length = 1 ∧
+    ∀ p ∈ ss.zip [[exTree2, exTree]], p.1.ccgs.length = 2 ∧
+      ∀ q ∈ p.1.ccgs.zip p.2, CcgWellFormed (tokenIds p.1) 2 q.1 := by
+  refine ⟨_, rfl, ?_⟩
+  have hw := jigg_wellformed_partial false [[exTree2, exTree]] _ (by decide)
+    (by
+      intro trees ht t hh
+      simp only [List.mem_singleton] at ht
+      subst ht
+      simp only [List.head?_cons, Option.mem_def, Option.some.injEq] at hh
+      subst hh
+      show NoIdKey exTokA ∧ NoIdKey exTokB
+      exact ⟨by unfold NoIdKey; decide, by unfold NoIdKey; decide⟩) rfl
+  refine ⟨hw.1, fun p hp => ?_⟩
+  have hp2 : p.2 = [exTree2, exTree] := by
+    have := (List.of_mem_zip (a := p.1) (b := p.2) hp).2
+    simpa using this
+  refine ⟨by rw [(hw.2.1 p hp).1, hp2]; rfl, fun q hq => ?_⟩
+  have := (hw.2.1 p hp).2.2.2.1 q hq
+  have hq2 : q.2.numLeaves = 2 := by
+    have := (List.of_mem_zip (a := q.1) (b := q.2) hq).2
+    rw [hp2] at this
+    simp only [List.mem_cons, List.not_mem_nil, or_false] at this
+    rcases this with h | h <;> rw [h] <;> rfl
+  rwa [hq2] at this
+
+/-! ### non-vacuity: token names -/
+
+example : normalizeToken (lit "Ph.D.") = lit "_Ph_DOTD_DOT" := by decide
+example : normalizeToken (lit "-") = lit "_HYPHEN" := by decide
+example : normalizeToken (lit "a-b") = lit "_a_dash_b" := by decide
+example : normalizeToken (lit "&") = lit "_AMPERSAND" := by decide
+example : normalizeToken (lit "_-") = lit "__dash_" := by decide
+example : normalizeToken (normalizeToken (lit "Ph.D.")) = normalizeToken (lit "Ph.D.") := normalize_idem _
+
+end Depccg.C15
